@@ -1,6 +1,7 @@
 //! C06 — safe-to-notar / safe-to-skip are signalled exactly when the protocol allows.
 //!
-//! World: two possible parents P0=(slot 1), P1=(slot 2); children compete in slots 3 and 5, each
+//! World: two possible parents P0=(slot 1), P1=(slot 2), plus a sibling of P0 in slot 1 that may get
+//! certified instead of (or besides) P0; children compete in slots 3 and 5, each
 //! with a parent from {P0, P1, genesis}. Own votes, other validators' votes, block registration
 //! and parent certificates (by votes or received) are interleaved in a generated order. After
 //! every call the model recomputes both predicates from the accepted history; the events of the
@@ -20,8 +21,9 @@ use crate::fixtures::pool_driver::{CallOutput, PoolDriver, bid};
 use crate::fixtures::pool_model::PoolModel;
 use crate::fixtures::votes::{CKind, CertSpec, VKind, VoteSpec};
 
-const PARENT_SLOTS: [u64; 2] = [1, 2];
-const PARENT_TAGS: [u64; 2] = [10, 11];
+// P0, P1 and a sibling of P0 in the same slot (never a parent of a child, but it can be certified)
+const PARENT_SLOTS: [u64; 3] = [1, 2, 1];
+const PARENT_TAGS: [u64; 3] = [10, 11, 12];
 const CHILD_SLOTS: [u64; 2] = [3, 5];
 
 #[derive(Clone, Debug, Serialize, Deserialize)]
@@ -67,8 +69,8 @@ fn op_strategy(profiles: [Profile; 2]) -> BoxedStrategy<Op> {
     });
     let own = (0u8..2, prop_oneof![3 => Just(VKind::Notar), 3 => Just(VKind::Skip), 1 => Just(VKind::NotarFallback), 1 => Just(VKind::SkipFallback)], 0u8..3)
         .prop_map(|(cslot, kind, block)| Op::Own { cslot, kind, block });
-    let pvote = (any::<u16>(), 0u8..2, prop::bool::weighted(0.25)).prop_map(|(signer, parent, fallback)| Op::ParentVote { signer, parent, fallback });
-    let pcert = (0u8..2, prop_oneof![Just(CKind::Notar), Just(CKind::NotarFallback), Just(CKind::FastFinal)], (any::<u32>(), any::<u32>()).prop_map(|(a, b)| a | b), any::<u32>())
+    let pvote = (any::<u16>(), prop_oneof![3 => 0u8..2, 1 => Just(2u8)], prop::bool::weighted(0.25)).prop_map(|(signer, parent, fallback)| Op::ParentVote { signer, parent, fallback });
+    let pcert = (prop_oneof![3 => 0u8..2, 1 => Just(2u8)], prop_oneof![Just(CKind::Notar), Just(CKind::NotarFallback), Just(CKind::FastFinal)], (any::<u32>(), any::<u32>()).prop_map(|(a, b)| a | b), any::<u32>())
         .prop_map(|(parent, kind, mask, fb)| Op::ParentCert { parent, kind, mask, fb });
     let addb = (0u8..2, 0u8..3).prop_map(|(cslot, block)| Op::AddBlock { cslot, block });
     prop_oneof![12 => vote, 3 => own, 5 => pvote, 2 => pcert, 4 => addb].boxed()
@@ -256,7 +258,7 @@ fn run(case: &Case) -> Outcome {
         let call: CallOutput;
         let trigger: &str;
         let wm_before = w.model.watermark;
-        let live_before: BTreeSet<(u64, u64)> = (0..2usize)
+        let live_before: BTreeSet<(u64, u64)> = (0..3usize)
             .map(|p| (PARENT_SLOTS[p], PARENT_TAGS[p]))
             .filter(|(ps, ptag)| {
                 *ps >= wm_before
@@ -306,7 +308,7 @@ fn run(case: &Case) -> Outcome {
                 trigger = "own-vote";
             }
             Op::ParentVote { signer, parent, fallback } => {
-                let p = *parent as usize % 2;
+                let p = *parent as usize % 3;
                 let spec = VoteSpec {
                     kind: if *fallback { VKind::NotarFallback } else { VKind::Notar },
                     slot: PARENT_SLOTS[p],
@@ -321,7 +323,7 @@ fn run(case: &Case) -> Outcome {
                 trigger = "parent-cert-by-votes";
             }
             Op::ParentCert { parent, kind, mask, fb } => {
-                let p = *parent as usize % 2;
+                let p = *parent as usize % 3;
                 let mut primary: Vec<usize> = (0..n).filter(|i| mask >> i & 1 == 1).collect();
                 let mut fallback = Vec::new();
                 if *kind == CKind::NotarFallback {
